@@ -42,10 +42,12 @@ FLAVOURS = {
     'ref_async': ('sdc11073.provider.subscriptionmgr_async', 'SubscriptionsManagerReferenceParamAsync', True),
 }
 FAULT_KINDS = ['http404', 'http500', 'http404_fault', 'http500_fault', 'refused', 'timeout']
-# faults of the CONNECT phase (nobody listens / SYN unanswered): the synchronous SOAP client raises them from its implicit connect,
-# un-wrapped (ConnectionRefusedError / TimeoutError), and tries to connect again for the next message; the async client has no separate
-# connect phase (there the kinds mean: the next n messages to that host:port are refused / time out)
-CONNECT_KINDS = ['connect_refused', 'connect_timeout']
+# faults of the CONNECT phase (nobody listens / SYN unanswered / no route to the host / reset during connect): the synchronous SOAP client
+# raises them from its implicit connect, un-wrapped (ConnectionRefusedError / TimeoutError / OSError EHOSTUNREACH / ConnectionResetError),
+# and tries to connect again for the next message; the async client has no separate connect phase (there the kinds mean: the next n
+# messages to that host:port fail with what aiohttp raises for it)
+CONNECT_KINDS = ['connect_refused', 'connect_timeout', 'connect_unreachable', 'connect_reset']
+CONNECT_ERRORS = ('ConnectionRefusedError', 'TimeoutError', 'OSError', 'ConnectionResetError')  # what the sync client's connect raises for them
 # requests that name no subscription of the addressed manager: an identifier nobody was given, none at all, the identifier of a
 # subscription of the other hosted service, a foreign reference parameter; and near misses of an identifier that IS known: one more
 # path element behind it, its upper-case spelling, all but its last character
@@ -343,6 +345,10 @@ class Rig:
         self.ctx.count(f'fault.injected.{kind}')
         if kind == 'connect_refused':
             raise ConnectionRefusedError(111, 'Connection refused')
+        if kind == 'connect_unreachable':
+            raise OSError(113, 'No route to host')
+        if kind == 'connect_reset':
+            raise ConnectionResetError(104, 'Connection reset by peer')
         raise TimeoutError('timed out')
 
     def policy(self, entry):
@@ -385,11 +391,14 @@ class Rig:
             return loopback.Respond(500, 'Internal Server Error', self.fault_body, name=name)
         if kind == 'timeout':
             return loopback.Raise(TimeoutError('timed out'), name=name)
-        if self.is_async:  # what aiohttp raises for a refused connection
-            from aiohttp.client_exceptions import ClientConnectorError
+        if self.is_async:  # what aiohttp raises for a refused connection / an unreachable host / a connection reset
+            from aiohttp.client_exceptions import ClientConnectorError, ClientOSError
             host, port = entry.netloc.split(':')
             key = types.SimpleNamespace(host=host, port=int(port), is_ssl=False, ssl=None)
-            return loopback.Raise(ClientConnectorError(key, ConnectionRefusedError(111, 'Connection refused')), name=name)
+            if kind == 'reset':
+                return loopback.Raise(ClientOSError(104, 'Connection reset by peer'), name=name)
+            cause = OSError(113, 'No route to host') if kind == 'unreachable' else ConnectionRefusedError(111, 'Connection refused')
+            return loopback.Raise(ClientConnectorError(key, cause), name=name)
         return loopback.Raise(ConnectionRefusedError(111, 'Connection refused'), name=name)
 
     # -- the report oracle ---------------------------------------------------------------------------
@@ -534,7 +543,7 @@ class Rig:
             kind = f'no_wire_{rec["outcome"]}'
             self.models[sub['mgr']].delivery(k, t, False, kind)
             sub['streak'].append((kind, rec['outcome']))
-            if rec['outcome'] in ('ConnectionRefusedError', 'TimeoutError'):
+            if rec['outcome'] in CONNECT_ERRORS:
                 self.ctx.count(f'delivery.failed.at_connect.{rec["outcome"]}')
             else:
                 self.ctx.count(f'obs.handoff_without_wire.{rec["outcome"]}.{self.sa}')
@@ -547,7 +556,7 @@ class Rig:
                 return 'http_error_empty_body'
             if kind.endswith('_fault'):
                 return 'http_error_fault_body'
-            return 'connection' if kind in ('refused', 'timeout') else 'no_wire'
+            return 'connection' if kind in ('refused', 'timeout', 'unreachable', 'reset') else 'no_wire'
         uncounted = sorted({cls(kind) for kind, outcome in sub['streak'] if outcome == 'ok'})
         return '+'.join(uncounted) or 'failures_were_reported'
 
@@ -1371,7 +1380,7 @@ def run(ctx: core.Ctx):
     ctx.rule = ('seeded sequences of Subscribe / Renew / GetStatus / Unsubscribe / bogus requests (7 kinds: unknown, foreign and near-miss '
                 'identifiers), sent raw or by the library\'s own consumer-side subscription object, filters with look-alikes of the offered '
                 'actions (8 classes), provider reports of 8 kinds, virtual-clock advances (also to just before / at / after an expiry, and '
-                'across an expiry while a report is being delivered), armed delivery faults (6 kinds on the message + 2 of the connect phase, '
+                'across an expiry while a report is being delivered), armed delivery faults (6 kinds on the message + 4 of the connect phase, '
                 'below / at / above the failure limit, on one of several subscriptions of a subscriber or on its whole host:port) '
                 'and a final stop_all(True|False) + post-stop probes, x 4 manager classes x max duration {5,20,60,7200} x failure limit '
                 '{library constant, 2, 3}; plus directed corner sequences per class.  distinct = (class, max, limit, sequence of '
@@ -1386,7 +1395,7 @@ def run(ctx: core.Ctx):
         'observation point is the hand-over to the subscriber-facing SOAP client; delivery success is what the subscriber endpoint answered',
         'send time of a notification = the instant of its hand-over; a subscription that expires while the same report is being delivered '
         'to other subscribers may be handed the report before its expiry or not at all, never after it',
-        'connect-phase faults (refused / unanswered connect) exist for the synchronous SOAP client only (first message to a host:port, '
+        'connect-phase faults (refused / unanswered connect, no route to the host, connection reset) exist for the synchronous SOAP client only (first message to a host:port, '
         'implicit re-connect after a failed connect); for the async client the same step makes the next n messages to the host:port fail',
         'a filter string is "the report\'s action" only if it is that URI; look-alikes (same last path segment elsewhere, last segment only, '
         'service prefix, other case, trailing slash, truncated, text appended) never match',
@@ -1422,7 +1431,7 @@ def run(ctx: core.Ctx):
     ctx.floor('table.index_vs_scan', 2000)
     for kind in FAULT_KINDS + CONNECT_KINDS:
         ctx.floor(f'fault.injected.{kind}', 8)
-    for outcome in ('ConnectionRefusedError', 'TimeoutError'):
+    for outcome in CONNECT_ERRORS:
         ctx.floor(f'delivery.failed.at_connect.{outcome}', 8)
     for cls in DECOYS.values():
         ctx.floor(f'delivery.suppressed.filter_decoy.{cls}', 10)
